@@ -1632,6 +1632,8 @@ func replay(line string) {
 		}
 	case "disp":
 		runDisp(w[1])
+	case "rlib":
+		runRlib(kv(w, "id"), kv(w, "key"), kv(w, "addr"))
 	case "sind":
 		runSind(w[1], kv(w, "src"), kv(w, "dest"))
 	case "pdur":
